@@ -150,13 +150,23 @@ def classify_crash(text, rc):
         kind = "watchdog_" + (m5.group(1) if m5 else "x")
     frame = "noframe"
     for m in re.finditer(r"#\d+ 0x[0-9a-f]+ in ([^\n]+)", text):
-        fn = m.group(1)
-        if "Clipper2Lib::" in fn and "vf::" not in fn:
-            fm = re.search(r"Clipper2Lib::([\w:~<>]+)", fn)
-            if fm:
-                frame = re.sub(r"<.*", "", fm.group(1))
-                break
+        fm = re.match(r"(?:[\w:<>,*& ]+ )?Clipper2Lib::([\w:~]+)", m.group(1))
+        if fm and not m.group(1).startswith("std::"):
+            frame = fm.group(1)
+            break
     return [kind, "frame_" + frame, kind + "@" + frame]
+
+
+def witness_tags(path):
+    """input-class tags a monitor stored in the witness (kv _tags a,b,c)"""
+    try:
+        with open(path) as f:
+            for line in f:
+                if line.startswith("kv _tags "):
+                    return [t for t in line[len("kv _tags "):].strip().split(",") if t]
+    except OSError:
+        pass
+    return []
 
 
 def match_known(findings, prop, claim, tags):
@@ -272,7 +282,7 @@ def run_property(prop, tier, seed, replay=None):
                 eprint("replay %s: %s" % (replay, st))
                 return 2
             if st == "crash":
-                tags = classify_crash(w.stderr_text(), w.rc)
+                tags = classify_crash(w.stderr_text(), w.rc) + witness_tags(replay)
                 eprint(w.stderr_text(4000))
                 report(prop + ".crash", tags, replay, "worker died rc=%s" % w.rc)
             for r in recs:
@@ -307,7 +317,7 @@ def run_property(prop, tier, seed, replay=None):
             st, recs, w = replay_one(prop, wpath, seed, tier, tmp, "pin%d" % n)
             hit = []
             if st == "crash":
-                hit.append((prop + ".crash", classify_crash(w.stderr_text(), w.rc), "worker died rc=%s" % w.rc))
+                hit.append((prop + ".crash", classify_crash(w.stderr_text(), w.rc) + witness_tags(wpath), "worker died rc=%s" % w.rc))
             for r in recs:
                 if r.get("t") == "violation":
                     hit.append((r["claim"], r.get("tags", []), r.get("detail", "")))
@@ -389,10 +399,15 @@ def run_property(prop, tier, seed, replay=None):
                     else:
                         tags = classify_crash(w2.stderr_text(), w2.rc) if not w2.timed_out else tags
                         txt = w2.stderr_text() or txt
+                if witness:
+                    tags += witness_tags(witness)
                 keep = os.path.join(REPLAY, "%s_%s_crash_s%d_%s.stderr.txt" % (prop, w.job["mon"], seed, w.tag))
                 with open(keep, "w") as f:
                     f.write(txt)
-                if pdef.get("crash_is_violation", True):
+                if "not_reproduced_alone" in tags and any(t.startswith("watchdog_") for t in tags):
+                    # a watchdog that fires only inside the loaded batch is a load artefact, not a verdict
+                    notes.append("watchdog fired in worker %s at case %s but the case completes alone (%s)" % (w.tag, idx, keep))
+                elif pdef.get("crash_is_violation", True):
                     report(prop + ".crash", tags, witness or keep, "worker %s died rc=%s at case %s; stderr kept in %s" % (w.tag, w.rc, idx, keep))
                 else:
                     inconclusive.append("worker %s died rc=%s at case %s (%s)" % (w.tag, w.rc, idx, keep))
@@ -425,15 +440,19 @@ def run_property(prop, tier, seed, replay=None):
         for k in known_seen.values():
             print("KNOWN-FINDING: property=%s %s (seen %d time(s) this run, e.g. %s)" %
                   (prop, k["f"]["text"], k["n"], os.path.relpath(k["example"], VERIF) if k["example"] else "-"))
-        seen = set()
-        nviol = 0
+        seen = {}
+        printed = 0
+        viol_lines.sort(key=lambda v: 0 if v[2] else 1)   # those with a witness file first
         for (claim, tags, wit, detail) in viol_lines:
-            nviol += 1
             key = (claim, tuple(sorted(tags)))
-            if key in seen and nviol > 20:
+            seen[key] = seen.get(key, 0) + 1
+            if seen[key] > 2 or printed >= 12:
                 continue
-            seen.add(key)
+            printed += 1
             print("VIOLATION property=%s replay=%s claim=%s tags=%s %s" % (prop, wit, claim, ",".join(tags), detail[:400]))
+        if len(viol_lines) > printed:
+            print("(%d further violations not printed; classes: %s)" % (len(viol_lines) - printed,
+                  "; ".join("%s[%s] x%d" % (k[0], ",".join(k[1]), n) for k, n in sorted(seen.items(), key=lambda kv: -kv[1])[:8])))
 
         floor = pdef.get("floor", {}).get(tier, 2)
         if len(distinct) < floor and not viol_lines:
